@@ -545,8 +545,18 @@ func (g *gen) adv() string {
 // protocol's own sequences (login, logined, second login parks, closed, offline reply, reconnect,
 // re-online, logout request, logout done, tick; line switch begin/end) are common, with every
 // other operation still possible in every state.
+var malformed = []string{"login u=9 f=1 n=1 k=1", "closed u=0", "frobnicate u=1", "login u=1 f=1", "adv", "logined lg=1", "swend u=77 ok=1",
+	"login u=1 f=7 n=4 k=1", "login u=1 f=0 n=5 k=1", "adv ms=0", ""}
+
 func (g *gen) op() string {
 	r := g.h.R
+	if r.Intn(80) == 0 {
+		g.h.Count("op.malformed")
+		if m := malformed[r.Intn(len(malformed))]; m != "" {
+			return m
+		}
+		return "offreply u=2 ok=1"
+	}
 	u := g.uid()
 	acct := ""
 	if parts := strings.Split(g.last, " | "); len(parts) > u {
